@@ -287,6 +287,95 @@ def template_of(case):
     return {"specificationVersion": "jobtemplate-2023-09", "name": "J", "steps": [step]}
 
 
+def race_observe(case):
+    """One iterator object, two users.  A's call (len / indexing / a full iteration) runs on a FRESH object and is
+    interrupted at ONE instruction boundary inside the package's own code — a place where the interpreter may switch
+    threads — where B asks the same object for its length and its first and last sets; then A continues.  This is
+    repeated for every instruction boundary of A's call (a fresh object each time).  What B is told is what a fresh
+    iterator says, whatever A is in the middle of; and A's answer is that too.  (Deterministic: no scheduler is
+    waited for.  B at EVERY boundary of one run would show nothing: its first call would fill every cache.)"""
+    import openjd.model as _pkg
+    root = str(Path(_pkg.__file__).resolve().parent)
+    space = build_space(case["base"])
+    if space is None:
+        return ["race", []]
+    try:
+        fresh = StepParameterSpaceIterator(space=space)
+        n = len(fresh)
+        first, last = (fresh[0], fresh[-1]) if n else (None, None)
+        every = list(StepParameterSpaceIterator(space=space)) if n <= 24 else None
+    except BaseException as e:  # noqa: BLE001
+        return ["race", []] if isinstance(e, (ValueError, IndexError)) else ["race", [["construction", type(e).__name__]]]
+    mon = getattr(sys, "monitoring", None)
+    if mon is None:
+        return ["race", [["HARNESS", "sys.monitoring (CPython >= 3.12) is needed for per-instruction events"]]]
+    problems = []
+
+    def run(target, at):
+        """A's call on a fresh object; B's probe at instruction number `at` (0: never) -> (A's answer, instructions seen)"""
+        x = StepParameterSpaceIterator(space=space)
+        seen = [0]
+        busy = [False]
+
+        def on_instruction(code, offset):
+            if busy[0] or not code.co_filename.startswith(root):
+                return
+            seen[0] += 1
+            if seen[0] != at:
+                return
+            busy[0] = True
+            try:
+                m = len(x)
+                if m != n:
+                    problems.append([target, f"at instruction {at} of A: len() says {m}, a fresh iterator says {n}"])
+                elif n and (x[0] != first or x[-1] != last):
+                    problems.append([target, f"at instruction {at} of A: x[0] / x[-1] differ from a fresh iterator's"])
+            except BaseException as e:  # noqa: BLE001
+                problems.append([target, f"at instruction {at} of A: {type(e).__name__}"])
+            finally:
+                busy[0] = False
+
+        mon.use_tool_id(mon.DEBUGGER_ID, "c07race")
+        mon.register_callback(mon.DEBUGGER_ID, mon.events.INSTRUCTION, on_instruction)
+        mon.set_events(mon.DEBUGGER_ID, mon.events.INSTRUCTION)
+        try:
+            if target == "len":
+                a = len(x)
+            elif target == "getitem":
+                a = x[n // 2] if n else None
+            elif target == "list":
+                a = list(x)
+            else:
+                a = (len(x), x[n - 1] if n else None)
+        except BaseException as e:  # noqa: BLE001
+            a = "raise:" + type(e).__name__
+        finally:
+            mon.set_events(mon.DEBUGGER_ID, 0)
+            mon.register_callback(mon.DEBUGGER_ID, mon.events.INSTRUCTION, None)
+            mon.free_tool_id(mon.DEBUGGER_ID)
+        return a, seen[0]
+
+    for target in ("len", "getitem", "list", "len-then-getitem"):
+        if target == "list" and every is None:
+            continue
+        want = n if target == "len" else (fresh[n // 2] if n else None) if target == "getitem" else every if target == "list" else (n, last)
+        a, total = run(target, 0)
+        if total == 0:
+            problems.append([target, "HARNESS: no instruction of the package was observed"])
+        if a != want:
+            problems.append([target, "A's own answer (undisturbed) differs from a fresh iterator's"])
+        points = range(1, total + 1) if total <= 400 else sorted(set(range(1, 201)) | set(range(201, total + 1, max(1, (total - 200) // 200))))
+        for at in points:
+            a, _ = run(target, at)
+            if a != want:
+                problems.append([target, f"A's own answer differs from a fresh iterator's after B ran at instruction {at}"])
+            if len(problems) >= 3:
+                break
+        if len(problems) >= 3:
+            break
+    return ["race", problems[:3]]
+
+
 def build_space(case):
     """-> the Job's parameter space (None for a step without one)"""
     if case["kind"] == "raw":
@@ -671,6 +760,13 @@ class C07(core.PropBase):
         yield from raw_cases(6000 if thorough else 400, rng)
         for _ in range(3):
             yield corpus()[-1]
+        # one iterator object used by two parties, pre-empted at every bytecode of the other's call
+        for c in random_cases(400 if thorough else 40, rng):
+            if len(c["params"]) >= 2:
+                yield {"kind": "race", "base": c}
+        for c in exhaustive_cases(3, rng):
+            if len(c["params"]) >= 2 and rng.random() < (1.0 if thorough else 0.15):
+                yield {"kind": "race", "base": c}
 
     def rule(self, tier):
         n = 5 if tier == "thorough" else 4
@@ -697,12 +793,14 @@ class C07(core.PropBase):
         return out
 
     def nontrivial(self, case):
-        if case["kind"] == "vast":
+        if case["kind"] in ("vast", "race"):
             return True
         return len(case["params"]) >= 2
 
     # -- implementation
     def impl(self, case):
+        if case["kind"] == "race":
+            return race_observe(case)
         if case["kind"] == "vast":
             return vast_observe(case)
         if case["kind"] == "none":
@@ -712,6 +810,8 @@ class C07(core.PropBase):
 
     # -- model
     def requests(self, case):
+        if case["kind"] == "race":
+            return []           # nothing to compute: the answer of a fresh iterator is the reference, and C07's theorems say what that is
         if case["kind"] == "none":
             sp = "none"
         else:
@@ -722,6 +822,8 @@ class C07(core.PropBase):
         return [["run", False, sp, case["idx"], [list(o) for o in case["ops"]]]]
 
     def model_obs(self, case, replies):
+        if case["kind"] == "race":
+            return ["race", []]
         return de_reply(replies[0])
 
     def spec_obs(self, case):
@@ -745,6 +847,8 @@ class C07(core.PropBase):
 
     def classify_case(self, case, obs):
         ks = [case["kind"]]
+        if case["kind"] == "race":
+            return ks
         if case["kind"] == "vast":
             return ks + ["vast:len>2^53"]
         if obs[0] != "ok":
@@ -782,6 +886,8 @@ class C07(core.PropBase):
         return res
 
     def shrink_candidates(self, case):
+        if case["kind"] == "race":
+            return
         if case["kind"] == "vast":
             for i in range(len(case["idx"])):
                 if len(case["idx"]) > 1:
